@@ -1,11 +1,15 @@
-(* Generic round-trip theorem for the schema interpreter (Schema.v):
-   for every environment accepted by env_ok, every version, depth and value,
-   rd (wr x ++ rest) = (x, rest). *)
+(* Generic theorems about the schema interpreter (Schema.v), for every environment accepted by
+   env_ok, every version, depth and value:
+     roundtrip            rd (wr x ++ rest) = (x, rest)
+     reencode             re-encoding the decoded value reproduces the bytes
+     rd_sound / dec_enc_dec_struct   decode-encode-decode is stable for ANY accepted byte string
+     wr_wf                everything wr emits is well-formed TTLV (WfSpec.v)                     *)
 From PK Require Import Base.Bytes Base.BytesProofs Base.Prim Base.PrimProofs Codec.Schema.
+From PK Require Import Base.WfSpec Base.SpecProofs.
 From Coq Require Import ZifyBool.
 Open Scope Z_scope.
 
-(* ---------------------------------------------------------------- small facts *)
+(* ---------------------------------------------------------------- decidable equalities *)
 
 Lemma ptype_eqb_eq a b : ptype_eqb a b = true <-> a = b.
 Proof. unfold ptype_eqb. destruct a, b; cbn; split; intros H; try reflexivity; try discriminate. Qed.
@@ -21,12 +25,34 @@ Proof.
   - apply String.eqb_eq in H. congruence.
 Qed.
 
+Lemma pval_eqb_eq a b : pval_eqb a b = true -> a = b.
+Proof.
+  destruct a, b; cbn; intros H; try discriminate;
+    try (apply Z.eqb_eq in H; congruence);
+    try (apply bytes_eqb_eq in H; congruence).
+  apply Bool.eqb_prop in H. congruence.
+Qed.
+
+Lemma table_eqb_eq a : forall b, table_eqb a b = true -> a = b.
+Proof.
+  induction a as [|[p [t k]] a IH]; intros [|[q [u l]] b] H; cbn in H; try discriminate; [reflexivity|].
+  apply andb_prop in H as [H Ht]. apply andb_prop in H as [H Hk]. apply andb_prop in H as [Hp Hz].
+  apply pval_eqb_eq in Hp. apply kind_eqb_eq in Hk. apply IH in Ht. apply Z.eqb_eq in Hz. congruence.
+Qed.
+
+Lemma by_eqb_eq a b : by_eqb a b = true -> a = b.
+Proof.
+  destruct a as [[i s t]|], b as [[j r u]|]; cbn; intros H; try discriminate; [|reflexivity].
+  apply andb_prop in H as [H Ht]. apply andb_prop in H as [Hi Hs].
+  apply Nat.eqb_eq in Hi. apply Bool.eqb_prop in Hs. apply table_eqb_eq in Ht. congruence.
+Qed.
+
 Lemma item_eqb_eq a b : item_eqb a b = true -> a = b.
 Proof.
   unfold item_eqb. intros H.
-  apply andb_prop in H as [H Hm]. apply andb_prop in H as [H Hhi]. apply andb_prop in H as [H Hlo].
-  apply andb_prop in H as [Ht Hk].
-  destruct a, b; cbn in *. apply kind_eqb_eq in Hk. apply mult_eqb_eq in Hm.
+  apply andb_prop in H as [H Hb]. apply andb_prop in H as [H Hm]. apply andb_prop in H as [H Hhi].
+  apply andb_prop in H as [H Hlo]. apply andb_prop in H as [Ht Hk].
+  destruct a, b; cbn in *. apply kind_eqb_eq in Hk. apply mult_eqb_eq in Hm. apply by_eqb_eq in Hb.
   f_equal; try lia; assumption.
 Qed.
 
@@ -36,20 +62,18 @@ Proof.
   apply andb_prop in H as [H1 H2]. apply item_eqb_eq in H1. apply IH in H2. congruence.
 Qed.
 
-Lemma nodupb_spec l : nodupb l = true -> NoDup l.
-Proof.
-  induction l as [|x l IH]; cbn; intros H; [constructor|].
-  apply andb_prop in H as [H1 H2]. constructor; [|apply IH; exact H2].
-  intros Hin. apply negb_true_iff in H1.
-  assert (existsb (Z.eqb x) l = true) by (apply existsb_exists; exists x; split; [exact Hin|apply Z.eqb_refl]).
-  congruence.
-Qed.
-
 Lemma opt_concat_cons_some o l bs :
   opt_concat (o :: l) = Some bs -> exists b r, o = Some b /\ opt_concat l = Some r /\ bs = b ++ r.
 Proof.
   cbn. destruct o as [b|]; [|discriminate]. destruct (opt_concat l) as [r|]; [|discriminate].
   intros H; injection H as <-. eauto.
+Qed.
+
+Lemma memb_false_notin t l : memb t l = false -> ~ In t l.
+Proof.
+  unfold memb. intros H Hin.
+  assert (existsb (Z.eqb t) l = true) by (apply existsb_exists; exists t; split; [exact Hin|apply Z.eqb_refl]).
+  congruence.
 Qed.
 
 (* ---------------------------------------------------------------- every encoding starts with its tag *)
@@ -80,6 +104,28 @@ Proof.
     eapply with_hdr_starts; exact H.
 Qed.
 
+(* ---------------------------------------------------------------- dispatch *)
+
+Lemma resolve1_tag pre it it' : resolve1 pre it = RItem it' -> In (i_tag it') (tags_of_item it).
+Proof.
+  unfold resolve1, tags_of_item. destruct (i_by it) as [b|]; [|intros H; injection H as <-; left; reflexivity].
+  destruct (key_of pre (by_ix b)) as [p|]; [|destruct (by_skip_if_absent b); discriminate].
+  destruct (find _ (by_table b)) as [[q [tag k]]|] eqn:Ef; [|discriminate].
+  intros H; injection H as <-. cbn [i_tag]. apply find_some in Ef as [Hin _].
+  apply (in_map (fun e => fst (snd e))) in Hin. exact Hin.
+Qed.
+
+Lemma resolve1_ok E pre it it' : item_ok E it = true -> resolve1 pre it = RItem it' ->
+  tag_ok (i_tag it') = true /\ i_mult it' = i_mult it.
+Proof.
+  unfold resolve1, item_ok. destruct (i_by it) as [b|].
+  - destruct (key_of pre (by_ix b)) as [p|]; [|destruct (by_skip_if_absent b); discriminate].
+    destruct (find _ (by_table b)) as [[q [tag k]]|] eqn:Ef; [|discriminate].
+    intros Hok H; injection H as <-. cbn [i_tag i_mult]. apply find_some in Ef as [Hin _].
+    rewrite forallb_forall in Hok. specialize (Hok _ Hin). cbn in Hok. apply andb_prop in Hok as [Hok _]. auto.
+  - intros Hok H; injection H as <-. apply andb_prop in Hok as [Hok _]. auto.
+Qed.
+
 Section Generic.
 Variable E : env.
 Variable v : Z.
@@ -91,13 +137,7 @@ Proof.
   - destruct (ptype_eqb (ptype_of p) t && negb (ptype_eqb t PEnum)); [|discriminate]. apply enc_prim_starts.
   - destruct p; try discriminate. apply enc_prim_starts.
   - destruct (find_cls E c) as [k|]; [|discriminate].
-    destruct (negb (Nat.eqb _ _)); [discriminate|].
-    destruct (opt_concat _) as [body|]; [|discriminate]. apply with_hdr_starts.
-Qed.
-
-Lemma wr_nonempty fuel tag k x bs : wr E v fuel tag k x = Some bs -> (1 <= List.length bs)%nat.
-Proof.
-  intros H. apply wr_starts in H as [r ->]. rewrite app_length, be_enc_length. lia.
+    destruct (wr_items _ _ _ _) as [body|]; [|discriminate]. apply with_hdr_starts.
 Qed.
 
 (* the concatenated encodings of one field's occurrences *)
@@ -111,23 +151,45 @@ Proof.
     apply Hs in Hb as [r' ->]. right. rewrite <- app_assoc. eauto.
 Qed.
 
-(* the concatenated encodings of a list of items start with the tag of one of them, or are empty *)
-Lemma items_start (wrf : Z -> kind -> value -> option bytes) items : forall fields body,
+(* the encodings of a list of items start with one of the tags those items can take, or are empty *)
+Lemma wr_items_start (wrf : Z -> kind -> value -> option bytes) items : forall pre fields body,
   (forall tag k x b, wrf tag k x = Some b -> exists r, b = be_enc 3 tag ++ r) ->
-  opt_concat (map (enc_field wrf) (combine items fields)) = Some body ->
-  body = [] \/ exists it r, In it items /\ body = be_enc 3 (i_tag it) ++ r.
+  wr_items wrf pre items fields = Some body ->
+  body = [] \/ exists t r, In t (List.concat (map tags_of_item items)) /\ body = be_enc 3 t ++ r.
 Proof.
-  induction items as [|it items IH]; intros fields body Hs H.
-  - cbn in H. injection H as <-. left; reflexivity.
-  - destruct fields as [|fs fields]; [cbn in H; injection H as <-; left; reflexivity|].
-    cbn [combine map] in H. apply opt_concat_cons_some in H as (b & r & Hb & Hr & ->).
-    unfold enc_field in Hb. cbn [fst snd] in Hb.
-    destruct (mult_ok (i_mult it) (List.length fs)); [|discriminate].
-    apply (field_starts wrf) in Hb; [|intros; eapply Hs; eassumption].
-    destruct Hb as [->|[r' ->]].
-    + cbn [app]. destruct (IH fields r Hs Hr) as [->|(it' & r' & Hin & ->)]; [left; reflexivity|].
-      right. exists it', r'. split; [right; exact Hin|reflexivity].
-    + right. exists it, (r' ++ r). split; [left; reflexivity|rewrite app_assoc; reflexivity].
+  induction items as [|it items IH]; intros pre fields body Hs H.
+  - destruct fields; cbn in H; [injection H as <-; left; reflexivity|discriminate].
+  - destruct fields as [|fs fields]; [cbn in H; discriminate|]. cbn [wr_items] in H.
+    cbn [map List.concat].
+    destruct (resolve1 pre it) as [it'| |] eqn:Er; [| |discriminate].
+    + destruct (enc_field wrf (it', fs)) as [b|] eqn:Eb; [|discriminate].
+      destruct (wr_items wrf (pre ++ [fs]) items fields) as [r|] eqn:Ew; [|discriminate]. injection H as <-.
+      unfold enc_field in Eb. cbn [fst snd] in Eb.
+      destruct (mult_ok (i_mult it') (List.length fs)); [|discriminate].
+      apply (field_starts wrf) in Eb; [|intros; eapply Hs; eassumption].
+      destruct Eb as [->|[r' ->]].
+      * cbn [app]. destruct (IH _ _ _ Hs Ew) as [->|(t & r' & Hin & ->)]; [left; reflexivity|].
+        right. exists t, r'. split; [apply in_or_app; right; exact Hin|reflexivity].
+      * right. exists (i_tag it'), (r' ++ r). split; [|rewrite app_assoc; reflexivity].
+        apply in_or_app; left. eapply resolve1_tag; exact Er.
+    + destruct fs; [|discriminate].
+      destruct (IH _ _ _ Hs H) as [->|(t & r' & Hin & ->)]; [left; reflexivity|].
+      right. exists t, r'. split; [apply in_or_app; right; exact Hin|reflexivity].
+Qed.
+
+(* every tag an item of a checked list can take is a legal tag *)
+Lemma tags_of_items_ok items t :
+  (forall it, In it items -> item_ok E it = true) ->
+  In t (List.concat (map tags_of_item items)) -> tag_ok t = true.
+Proof.
+  induction items as [|j items IHi]; intros Hok Hin; [destruct Hin|].
+  cbn [map List.concat] in Hin. apply in_app_or in Hin as [Hj|Hr].
+  - specialize (Hok j (or_introl eq_refl)). unfold item_ok, tags_of_item in *.
+    destruct (i_by j) as [bj|].
+    + apply in_map_iff in Hj as (e & <- & He). rewrite forallb_forall in Hok.
+      specialize (Hok e He). apply andb_prop in Hok as [Hk _]. exact Hk.
+    + destruct Hj as [<-|[]]. apply andb_prop in Hok as [Hk _]. exact Hk.
+  - apply IHi; [intros; apply Hok; right; assumption|exact Hr].
 Qed.
 
 (* ---------------------------------------------------------------- reading back one field *)
@@ -135,99 +197,117 @@ Qed.
 Section Field.
 Variable wrf : Z -> kind -> value -> option bytes.
 Variable rdf : Z -> kind -> bytes -> option (value * bytes).
+Variable wff : kind -> value -> bool.
 Hypothesis wrf_starts : forall tag k x b, wrf tag k x = Some b -> exists r, b = be_enc 3 tag ++ r.
+(* element-level round trip (the induction hypothesis of the main theorem) *)
+Hypothesis elt_rt : forall tag k x b, tag_ok tag = true -> wff k x = true ->
+                                     wrf tag k x = Some b -> forall r, rdf tag k (b ++ r) = Some (x, r).
 
 Lemma rd_many_wr tag k xs : forall bs after lfuel,
-  tag_ok tag = true ->
-  (forall x b r, In x xs -> wrf tag k x = Some b -> rdf tag k (b ++ r) = Some (x, r)) ->
+  tag_ok tag = true -> forallb (wff k) xs = true ->
   opt_concat (map (wrf tag k) xs) = Some bs ->
   is_tag_next tag after = false ->
   (List.length xs < lfuel)%nat ->
   rd_many (rdf tag k) tag lfuel (bs ++ after) = Some (xs, after).
 Proof.
-  induction xs as [|x xs IH]; intros bs after lfuel Ht Hrt Henc Hafter Hfuel.
+  induction xs as [|x xs IH]; intros bs after lfuel Ht Hwf Henc Hafter Hfuel.
   - cbn in Henc. injection Henc as <-. destruct lfuel as [|lf]; [cbn in Hfuel; lia|].
     cbn [rd_many app]. rewrite Hafter. reflexivity.
   - cbn [map] in Henc. apply opt_concat_cons_some in Henc as (b & r & Hb & Hr & ->).
+    cbn [forallb] in Hwf. apply andb_prop in Hwf as [Hwx Hwf].
     destruct lfuel as [|lf]; [cbn in Hfuel; lia|]. cbn [rd_many].
     destruct (wrf_starts _ _ _ _ Hb) as [r0 Hb0].
     rewrite <- app_assoc.
     assert (Hnext : is_tag_next tag (b ++ r ++ after) = true).
     { rewrite Hb0, <- app_assoc, is_tag_next_tag by exact Ht. apply Z.eqb_refl. }
-    rewrite Hnext. rewrite (Hrt x b (r ++ after) (or_introl eq_refl) Hb).
-    rewrite (IH r after lf Ht); [reflexivity| |exact Hr|exact Hafter|cbn in Hfuel; lia].
-    intros x' b' r' Hin. apply Hrt. right; exact Hin.
+    rewrite Hnext. rewrite (elt_rt tag k x b Ht Hwx Hb (r ++ after)).
+    rewrite (IH r after lf Ht Hwf Hr Hafter); [reflexivity|cbn in Hfuel; lia].
+Qed.
+
+Lemma enc_len_le tag k : forall xs bs0, opt_concat (map (wrf tag k) xs) = Some bs0 ->
+  (List.length xs <= List.length bs0)%nat.
+Proof.
+  induction xs as [|x xs IHx]; intros bs0 H0; [cbn; lia|].
+  cbn [map] in H0. apply opt_concat_cons_some in H0 as (b & r & Hb & Hr & ->).
+  destruct (wrf_starts _ _ _ _ Hb) as [r0 ->]. specialize (IHx r Hr).
+  rewrite !app_length, be_enc_length. cbn [List.length]. lia.
 Qed.
 
 Lemma rd_field_wr it fs bs after :
-  tag_ok (i_tag it) = true ->
-  (forall x b r, In x fs -> wrf (i_tag it) (i_kind it) x = Some b -> rdf (i_tag it) (i_kind it) (b ++ r) = Some (x, r)) ->
+  tag_ok (i_tag it) = true -> forallb (wff (i_kind it)) fs = true ->
   enc_field wrf (it, fs) = Some bs ->
   is_tag_next (i_tag it) after = false ->
   rd_field (rdf (i_tag it) (i_kind it)) it (bs ++ after) = Some (fs, after).
 Proof.
-  intros Ht Hrt Henc Hafter. unfold enc_field in Henc. cbn [fst snd] in Henc.
+  intros Ht Hwf Henc Hafter. unfold enc_field in Henc. cbn [fst snd] in Henc.
   destruct (mult_ok (i_mult it) (List.length fs)) eqn:Hm; [|discriminate].
   unfold rd_field. destruct (i_mult it) eqn:Em.
   - (* Req *)
     destruct fs as [|x [|y fs]]; cbn in Hm; try discriminate.
     cbn [map] in Henc. apply opt_concat_cons_some in Henc as (b & r & Hb & Hr & ->).
     cbn in Hr. injection Hr as <-. rewrite app_nil_r.
+    cbn in Hwf. apply andb_prop in Hwf as [Hwx _].
     destruct (wrf_starts _ _ _ _ Hb) as [r0 Hb0].
     assert (Hnext : is_tag_next (i_tag it) (b ++ after) = true).
     { rewrite Hb0, <- app_assoc, is_tag_next_tag by exact Ht. apply Z.eqb_refl. }
-    rewrite Hnext, (Hrt x b after (or_introl eq_refl) Hb). reflexivity.
+    rewrite Hnext, (elt_rt _ _ x b Ht Hwx Hb after). reflexivity.
   - (* Opt *)
     destruct fs as [|x [|y fs]]; cbn in Hm; try discriminate.
     + cbn in Henc. injection Henc as <-. cbn [app]. rewrite Hafter. reflexivity.
     + cbn [map] in Henc. apply opt_concat_cons_some in Henc as (b & r & Hb & Hr & ->).
       cbn in Hr. injection Hr as <-. rewrite app_nil_r.
+      cbn in Hwf. apply andb_prop in Hwf as [Hwx _].
       destruct (wrf_starts _ _ _ _ Hb) as [r0 Hb0].
       assert (Hnext : is_tag_next (i_tag it) (b ++ after) = true).
       { rewrite Hb0, <- app_assoc, is_tag_next_tag by exact Ht. apply Z.eqb_refl. }
-      rewrite Hnext, (Hrt x b after (or_introl eq_refl) Hb). reflexivity.
+      rewrite Hnext, (elt_rt _ _ x b Ht Hwx Hb after). reflexivity.
   - (* Many *)
     apply rd_many_wr; try assumption.
-    (* fuel: one turn per element, each element occupies at least one byte *)
-    assert (Hlen : forall xs bs0, opt_concat (map (wrf (i_tag it) (i_kind it)) xs) = Some bs0 ->
-                                  (List.length xs <= List.length bs0)%nat).
-    { induction xs as [|x xs IHx]; intros bs0 H0; [cbn; lia|].
-      cbn [map] in H0. apply opt_concat_cons_some in H0 as (b & r & Hb & Hr & ->).
-      destruct (wrf_starts _ _ _ _ Hb) as [r0 ->]. specialize (IHx r Hr).
-      rewrite !app_length, be_enc_length. cbn [List.length]. lia. }
-    specialize (Hlen fs bs Henc). rewrite app_length. lia.
+    pose proof (enc_len_le _ _ fs bs Henc). rewrite app_length. lia.
+  - (* Many1 *)
+    rewrite (rd_many_wr (i_tag it) (i_kind it) fs bs after (S (List.length (bs ++ after))) Ht Hwf Henc Hafter).
+    + destruct fs; [cbn in Hm; discriminate|reflexivity].
+    + pose proof (enc_len_le _ _ fs bs Henc). rewrite app_length. lia.
 Qed.
 
 (* ---------------------------------------------------------------- reading back an item list *)
 
-Lemma rd_items_wr items : forall fields body tail,
-  NoDup (map i_tag items) ->
-  (forall it, In it items -> tag_ok (i_tag it) = true) ->
-  List.length items = List.length fields ->
-  (forall it fs x b r, In (it, fs) (combine items fields) -> In x fs ->
-      wrf (i_tag it) (i_kind it) x = Some b -> rdf (i_tag it) (i_kind it) (b ++ r) = Some (x, r)) ->
-  opt_concat (map (enc_field wrf) (combine items fields)) = Some body ->
-  (forall it, In it items -> is_tag_next (i_tag it) tail = false) ->
-  rd_items rdf items (body ++ tail) = Some (fields, tail).
+Lemma rd_items_wr items : forall pre fields body tail,
+  tags_disjointb items = true ->
+  (forall it, In it items -> item_ok E it = true) ->
+  wf_items wff pre items fields = true ->
+  wr_items wrf pre items fields = Some body ->
+  (forall t, In t (List.concat (map tags_of_item items)) -> is_tag_next t tail = false) ->
+  rd_items rdf pre items (body ++ tail) = Some (fields, tail).
 Proof.
-  induction items as [|it items IH]; intros fields body tail Hnd Htags Hlen Hrt Henc Htail.
-  - destruct fields; [|cbn in Hlen; lia]. cbn in Henc. injection Henc as <-. reflexivity.
-  - destruct fields as [|fs fields]; [cbn in Hlen; lia|].
-    cbn [combine map] in Henc. apply opt_concat_cons_some in Henc as (b & r & Hb & Hr & ->).
-    cbn [rd_items]. rewrite <- app_assoc.
-    inversion Hnd as [|? ? Hnotin Hnd']; subst.
-    assert (Hafter : is_tag_next (i_tag it) (r ++ tail) = false).
-    { destruct (items_start wrf items fields r wrf_starts Hr) as [->|(it' & r' & Hin & ->)].
-      - cbn [app]. apply Htail. left; reflexivity.
-      - rewrite <- app_assoc, is_tag_next_tag by (apply Htags; right; exact Hin).
-        apply Z.eqb_neq. intros Heq. apply Hnotin. rewrite <- Heq. apply in_map. exact Hin. }
-    rewrite (rd_field_wr it fs b (r ++ tail)); [| apply Htags; left; reflexivity | | exact Hb | exact Hafter].
-    + rewrite (IH fields r tail Hnd'); [reflexivity| | | |exact Hr|].
-      * intros it' Hin. apply Htags. right; exact Hin.
-      * cbn in Hlen. lia.
-      * intros it' fs' x b' r' Hin. apply Hrt. right; exact Hin.
-      * intros it' Hin. apply Htail. right; exact Hin.
-    + intros x b' r' Hin. apply (Hrt it fs). left; reflexivity. exact Hin.
+  induction items as [|it items IH]; intros pre fields body tail Hdj Hok Hwf Henc Htail.
+  - destruct fields; cbn in Henc; [|discriminate]. injection Henc as <-. reflexivity.
+  - destruct fields as [|fs fields]; [cbn in Henc; discriminate|].
+    cbn [wr_items] in Henc. cbn [wf_items] in Hwf. cbn [rd_items].
+    cbn [tags_disjointb] in Hdj. apply andb_prop in Hdj as [Hdj1 Hdj].
+    cbn [map List.concat] in Htail.
+    assert (Hok' : forall it', In it' items -> item_ok E it' = true) by (intros; apply Hok; right; assumption).
+    assert (Htail' : forall t, In t (List.concat (map tags_of_item items)) -> is_tag_next t tail = false)
+      by (intros; apply Htail; apply in_or_app; right; assumption).
+    destruct (resolve1 pre it) as [it'| |] eqn:Er; [| |discriminate].
+    + destruct (enc_field wrf (it', fs)) as [b|] eqn:Eb; [|discriminate].
+      destruct (wr_items wrf (pre ++ [fs]) items fields) as [r|] eqn:Ew; [|discriminate]. injection Henc as <-.
+      apply andb_prop in Hwf as [Hwf1 Hwf].
+      destruct (resolve1_ok E pre it it' (Hok it (or_introl eq_refl)) Er) as [Htag _].
+      pose proof (resolve1_tag pre it it' Er) as Hin.
+      rewrite <- app_assoc.
+      assert (Hafter : is_tag_next (i_tag it') (r ++ tail) = false).
+      { destruct (wr_items_start wrf items _ _ _ wrf_starts Ew) as [->|(t & r' & Hint & ->)].
+        - cbn [app]. apply Htail. apply in_or_app; left; exact Hin.
+        - pose proof (tags_of_items_ok items t Hok' Hint) as Htt.
+          rewrite <- app_assoc, is_tag_next_tag by exact Htt.
+          apply Z.eqb_neq. intros Heq. subst t.
+          rewrite forallb_forall in Hdj1. specialize (Hdj1 _ Hin). apply negb_true_iff in Hdj1.
+          exact (memb_false_notin _ _ Hdj1 Hint). }
+      rewrite (rd_field_wr it' fs b (r ++ tail) Htag Hwf1 Eb Hafter).
+      rewrite (IH (pre ++ [fs]) fields r tail Hdj Hok' Hwf Ew Htail'). reflexivity.
+    + destruct fs; [|discriminate].
+      rewrite (IH (pre ++ [[]]) fields body tail Hdj Hok' Hwf Henc Htail'). reflexivity.
 Qed.
 
 End Field.
@@ -242,14 +322,15 @@ Proof.
   unfold env_ok in HE. rewrite forallb_forall in HE. apply HE. exact Hin.
 Qed.
 
-Lemma filter_active_in it items : In it (filter (active v) items) -> In it items.
-Proof. intros H. apply filter_In in H. tauto. Qed.
-
-Lemma NoDup_map_filter_versions k : In v VERSIONS -> cls_ok E k = true ->
-  NoDup (map i_tag (filter (active v) (c_rd k))).
+Lemma cls_facts c k : In v VERSIONS -> find_cls E c = Some k ->
+  c_rd k = c_wr k /\ tags_disjointb (filter (active v) (c_rd k)) = true /\
+  (forall it, In it (filter (active v) (c_rd k)) -> item_ok E it = true).
 Proof.
-  intros Hv Hk. unfold cls_ok in Hk. apply andb_prop in Hk as [_ Hk].
-  rewrite forallb_forall in Hk. apply nodupb_spec. apply Hk. exact Hv.
+  intros Hv Ec. pose proof (cls_ok_of c k Ec) as Hk. unfold cls_ok in Hk.
+  apply andb_prop in Hk as [Hk Hd]. apply andb_prop in Hk as [Hrw Hio].
+  split; [apply items_eqb_eq; exact Hrw|]. split.
+  - rewrite forallb_forall in Hd. apply Hd. exact Hv.
+  - intros it Hin. apply filter_In in Hin as [Hin _]. rewrite forallb_forall in Hio. apply Hio. exact Hin.
 Qed.
 
 Theorem roundtrip : In v VERSIONS ->
@@ -278,14 +359,8 @@ Proof.
     rewrite Hw in Hb'. injection Hb' as <-. cbn [ptype_of] in Hd. rewrite Hd. reflexivity.
   - (* structure *)
     destruct (find_cls E c) as [k|] eqn:Ec; [|discriminate].
-    pose proof (cls_ok_of c k Ec) as Hk.
-    assert (Hrw : c_rd k = c_wr k).
-    { unfold cls_ok in Hk. apply andb_prop in Hk as [Hk _]. apply andb_prop in Hk as [Hk _].
-      apply items_eqb_eq. exact Hk. }
-    destruct (negb (Nat.eqb (List.length (filter (active v) (c_wr k))) (List.length fields))) eqn:El; [discriminate|].
-    apply negb_false_iff, Nat.eqb_eq in El.
-    destruct (opt_concat (map (enc_field (wr E v f)) (combine (filter (active v) (c_wr k)) fields))) as [body|] eqn:Eb;
-      [|discriminate].
+    destruct (cls_facts c k Hv Ec) as (Hrw & Hdj & Hio).
+    destruct (wr_items (wr E v f) [] (filter (active v) (c_wr k)) fields) as [body|] eqn:Eb; [|discriminate].
     apply with_hdr_some in Hw as (h & Hh & ->).
     rewrite <- app_assoc.
     rewrite (dec_hdr_hdr tag STRUCT_CODE (zlen body) h (body ++ rest) Ht ltac:(unfold STRUCT_CODE; lia) Hh).
@@ -293,28 +368,13 @@ Proof.
     { rewrite zlen_app. pose proof (zlen_nonneg rest). unfold zlen in *. lia. }
     rewrite Hn. rewrite firstn_app, Nat.sub_diag, firstn_all. cbn [firstn]. rewrite app_nil_r.
     rewrite skipn_app, Nat.sub_diag, skipn_all. cbn [skipn app].
-    rewrite Hrw.
-    pose proof (rd_items_wr (wr E v f) (rd E v f) (fun tag k x b => wr_starts f tag k x b)
-                  (filter (active v) (c_wr k)) fields body []) as Hitems.
-    rewrite app_nil_r in Hitems. rewrite Hitems; clear Hitems.
-    + rewrite andb_false_r. reflexivity.
-    + rewrite <- Hrw. apply NoDup_map_filter_versions; assumption.
-    + intros it Hin. apply filter_active_in in Hin. rewrite <- Hrw in Hin.
-      unfold cls_ok in Hk. apply andb_prop in Hk as [Hk _]. apply andb_prop in Hk as [_ Hk].
-      rewrite forallb_forall in Hk. specialize (Hk it Hin). apply andb_prop in Hk as [Hk _]. exact Hk.
-    + exact El.
-    + intros it fs x b r Hin Hx Hb. apply IH; [| |exact Hb].
-      * apply in_combine_l in Hin. apply filter_active_in in Hin. rewrite <- Hrw in Hin.
-        unfold cls_ok in Hk. apply andb_prop in Hk as [Hk _]. apply andb_prop in Hk as [_ Hk].
-        rewrite forallb_forall in Hk. specialize (Hk it Hin). apply andb_prop in Hk as [Hk _]. exact Hk.
-      * rewrite forallb_forall in Hwf. specialize (Hwf (it, fs) Hin). cbn [fst snd] in Hwf.
-        rewrite forallb_forall in Hwf. apply Hwf. exact Hx.
-    + exact Eb.
-    + intros it _. apply is_tag_next_nil.
+    rewrite Hrw in *.
+    pose proof (rd_items_wr (wr E v f) (rd E v f) (wfv E v f) (fun tag k x b => wr_starts f tag k x b) IH
+                  (filter (active v) (c_wr k)) [] fields body [] Hdj Hio Hwf Eb
+                  (fun t _ => is_tag_next_nil t)) as Hitems.
+    rewrite app_nil_r in Hitems. rewrite Hitems. rewrite andb_false_r. reflexivity.
 Qed.
 
-(* re-encoding the decoded value reproduces the same bytes, and decode-encode-decode is stable:
-   immediate from roundtrip because the decoded value IS the original one *)
 Corollary reencode : In v VERSIONS ->
   forall fuel tag k x bs rest x' rest', tag_ok tag = true -> wfv E v fuel k x = true ->
   wr E v fuel tag k x = Some bs -> rd E v fuel tag k (bs ++ rest) = Some (x', rest') ->
@@ -324,86 +384,73 @@ Proof.
   rewrite (roundtrip Hv fuel tag k x bs Ht Hwf Hw rest) in Hr. injection Hr as <- <-. auto.
 Qed.
 
-End Generic.
-
 (* ---------------------------------------------------------------- C02: structure writers emit well-formed TTLV *)
-From PK Require Import Base.WfSpec Base.SpecProofs.
 
-Section WellFormed.
-Variable E : env.
-Variable v : Z.
-Hypothesis HE : env_ok E = true.
-
-Lemma field_children (wrf : Z -> kind -> value -> option bytes) tag k xs : forall bs,
-  (forall x b, In x xs -> wrf tag k x = Some b -> wf_item b) ->
+Lemma field_children (wrf : Z -> kind -> value -> option bytes) (wff : kind -> value -> bool) tag k xs : forall bs,
+  (forall x b, wff k x = true -> wrf tag k x = Some b -> wf_item b) ->
+  forallb (wff k) xs = true ->
   opt_concat (map (wrf tag k) xs) = Some bs ->
   exists children, bs = List.concat children /\ Forall wf_item children.
 Proof.
-  induction xs as [|x xs IH]; intros bs Hwf H.
+  induction xs as [|x xs IHx]; intros bs Hwf Hall H.
   - cbn in H. injection H as <-. exists []. split; [reflexivity|constructor].
   - cbn [map] in H. apply opt_concat_cons_some in H as (b & r & Hb & Hr & ->).
-    destruct (IH r) as (ch & -> & Hch); [intros; eapply Hwf; [right|]; eassumption|exact Hr|].
-    exists (b :: ch). split; [reflexivity|]. constructor; [|exact Hch].
-    eapply Hwf; [left; reflexivity|exact Hb].
+    cbn in Hall. apply andb_prop in Hall as [Hx Hall].
+    destruct (IHx r Hwf Hall Hr) as (ch & -> & Hch).
+    exists (b :: ch). split; [reflexivity|]. constructor; [|exact Hch]. eapply Hwf; eassumption.
 Qed.
 
-Lemma items_children (wrf : Z -> kind -> value -> option bytes) items : forall fields body,
-  (forall it fs x b, In (it, fs) (combine items fields) -> In x fs -> wrf (i_tag it) (i_kind it) x = Some b -> wf_item b) ->
-  opt_concat (map (enc_field wrf) (combine items fields)) = Some body ->
+Lemma items_children (wrf : Z -> kind -> value -> option bytes) (wff : kind -> value -> bool) items :
+  forall pre fields body,
+  (forall tag k x b, tag_ok tag = true -> wff k x = true -> wrf tag k x = Some b -> wf_item b) ->
+  (forall it, In it items -> item_ok E it = true) ->
+  wf_items wff pre items fields = true ->
+  wr_items wrf pre items fields = Some body ->
   exists children, body = List.concat children /\ Forall wf_item children.
 Proof.
-  induction items as [|it items IH]; intros fields body Hwf H.
-  - cbn in H. injection H as <-. exists []. split; [reflexivity|constructor].
-  - destruct fields as [|fs fields]; [cbn in H; injection H as <-; exists []; split; [reflexivity|constructor]|].
-    cbn [combine map] in H. apply opt_concat_cons_some in H as (b & r & Hb & Hr & ->).
-    unfold enc_field in Hb. cbn [fst snd] in Hb.
-    destruct (mult_ok (i_mult it) (List.length fs)); [|discriminate].
-    destruct (field_children wrf (i_tag it) (i_kind it) fs b) as (c1 & -> & H1);
-      [intros x b' Hx Hb'; eapply (Hwf it fs); [left; reflexivity|exact Hx|exact Hb']|exact Hb|].
-    destruct (IH fields r) as (c2 & -> & H2); [intros it' fs' x b' Hin; apply Hwf; right; exact Hin|exact Hr|].
-    exists (c1 ++ c2). split; [rewrite List.concat_app; reflexivity|]. apply Forall_app. split; assumption.
+  induction items as [|it items IHi]; intros pre fields body Hwf Hok Hall H.
+  - destruct fields; cbn in H; [|discriminate]. injection H as <-. exists []. split; [reflexivity|constructor].
+  - destruct fields as [|fs fields]; [cbn in H; discriminate|]. cbn [wr_items] in H. cbn [wf_items] in Hall.
+    assert (Hok' : forall it', In it' items -> item_ok E it' = true) by (intros; apply Hok; right; assumption).
+    destruct (resolve1 pre it) as [it'| |] eqn:Er; [| |discriminate].
+    + destruct (enc_field wrf (it', fs)) as [b|] eqn:Eb; [|discriminate].
+      destruct (wr_items wrf (pre ++ [fs]) items fields) as [r|] eqn:Ew; [|discriminate]. injection H as <-.
+      apply andb_prop in Hall as [Hall1 Hall].
+      destruct (resolve1_ok E pre it it' (Hok it (or_introl eq_refl)) Er) as [Htag _].
+      unfold enc_field in Eb. cbn [fst snd] in Eb.
+      destruct (mult_ok (i_mult it') (List.length fs)); [|discriminate].
+      destruct (field_children wrf wff (i_tag it') (i_kind it') fs b) as (c1 & -> & H1);
+        [intros x b' Hx Hb'; eapply Hwf; eassumption|exact Hall1|exact Eb|].
+      destruct (IHi _ _ _ Hwf Hok' Hall Ew) as (c2 & -> & H2).
+      exists (c1 ++ c2). split; [rewrite List.concat_app; reflexivity|]. apply Forall_app. split; assumption.
+    + destruct fs; [|discriminate]. exact (IHi _ _ _ Hwf Hok' Hall H).
 Qed.
 
-Theorem wr_wf : forall fuel tag k x bs, tag_ok tag = true -> wfv E v fuel k x = true ->
+Theorem wr_wf : In v VERSIONS -> forall fuel tag k x bs, tag_ok tag = true -> wfv E v fuel k x = true ->
   wr E v fuel tag k x = Some bs -> wf_item bs.
 Proof.
-  induction fuel as [|f IH]; intros tag k x bs Ht Hwf Hw; [discriminate|].
+  intros Hv. induction fuel as [|f IH]; intros tag k x bs Ht Hwf Hw; [discriminate|].
   cbn [wr] in Hw. cbn [wfv] in Hwf.
   destruct k as [t|e|c]; destruct x as [p|fields]; try discriminate.
   - destruct (ptype_eqb (ptype_of p) t && negb (ptype_eqb t PEnum)) eqn:Ep; [|discriminate].
     apply andb_prop in Ep as [Ept Hne]. apply ptype_eqb_eq in Ept. subst t. apply negb_true_iff in Hne.
     apply (enc_prim_wf (fun _ => false) tag p bs Ht); [|exact Hw].
-    apply (enc_some_iff_wf (fun _ => false) tag p); [destruct p; try exact I; exact Hwf | destruct p; try exact I; cbn in Hne; discriminate | eauto].
+    apply (enc_some_iff_wf (fun _ => false) tag p);
+      [destruct p; try exact I; exact Hwf | destruct p; try exact I; cbn in Hne; discriminate | eauto].
   - destruct p as [| | |n| | | | |]; try discriminate.
     apply (enc_prim_wf (enum_mem E e) tag (VEnum n) bs Ht); [|exact Hw].
     apply (enc_some_iff_wf (enum_mem E e) tag (VEnum n)); [exact I|exact Hwf|eauto].
   - destruct (find_cls E c) as [k|] eqn:Ec; [|discriminate].
-    destruct (negb (Nat.eqb _ _)); [discriminate|].
-    destruct (opt_concat _) as [body|] eqn:Eb; [|discriminate].
-    destruct (items_children (wr E v f) (filter (active v) (c_wr k)) fields body) as (children & -> & Hch); [|exact Eb|].
-    + intros it fs x b Hin Hx Hb.
-      rewrite forallb_forall in Hwf. specialize (Hwf (it, fs) Hin). cbn [fst snd] in Hwf.
-      rewrite forallb_forall in Hwf.
-      assert (Hti : tag_ok (i_tag it) = true).
-      { pose proof (cls_ok_of E HE c k Ec) as Hk. unfold cls_ok in Hk.
-        apply andb_prop in Hk as [Hk _]. apply andb_prop in Hk as [Hrw Hk].
-        apply items_eqb_eq in Hrw. rewrite forallb_forall in Hk.
-        apply in_combine_l, filter_In in Hin. destruct Hin as [Hin _]. rewrite <- Hrw in Hin.
-        specialize (Hk it Hin). apply andb_prop in Hk as [Hk _]. exact Hk. }
-      eapply IH; [exact Hti|apply Hwf; exact Hx|exact Hb].
-    + apply with_hdr_some in Hw as (h & Hh & ->). apply hdr_spec in Hh as [-> Hr].
-      unfold tag_ok in Ht.
-      pose proof (wf_structure tag children ltac:(change (256 ^ 3) with 16777216; lia) Hch) as Hs.
-      unfold zlen in *. rewrite <- !app_assoc. apply Hs. unfold TWO32 in Hr. lia.
+    destruct (cls_facts c k Hv Ec) as (Hrw & _ & Hio). rewrite Hrw in Hio.
+    destruct (wr_items _ _ _ _) as [body|] eqn:Eb; [|discriminate].
+    destruct (items_children (wr E v f) (wfv E v f) _ _ _ _ IH Hio Hwf Eb) as (children & -> & Hch).
+    apply with_hdr_some in Hw as (h & Hh & ->). apply hdr_spec in Hh as [-> Hr].
+    unfold tag_ok in Ht.
+    pose proof (wf_structure tag children ltac:(change (256 ^ 3) with 16777216; lia) Hch) as Hs.
+    unfold zlen in *. rewrite <- !app_assoc. apply Hs. unfold TWO32 in Hr. lia.
 Qed.
-End WellFormed.
 
 (* ---------------------------------------------------------------- decode-encode-decode for any accepted byte string *)
-
-Section Sound.
-Variable E : env.
-Variable v : Z.
-Hypothesis HE : env_ok E = true.
 
 Definition SoundAt (rdf : Z -> kind -> bytes -> option (value * bytes))
                    (wrf : Z -> kind -> value -> option bytes) (wff : kind -> value -> bool) : Prop :=
@@ -456,34 +503,42 @@ Proof.
       exists u1, b1. cbn. rewrite Hw1, Hb1, app_nil_r. repeat split; try reflexivity; assumption.
     + injection H as <- <-. exists [], []. cbn. repeat split; try reflexivity; try (unfold zlen; cbn; lia).
   - cbn [mult_ok]. apply (rd_many_sound (i_tag it) (i_kind it) Ht _ bs fs rest Hok Hs H).
+  - destruct (rd_many (rdf (i_tag it) (i_kind it)) (i_tag it) (S (List.length bs)) bs) as [[xs r]|] eqn:Em1; [|discriminate].
+    destruct xs as [|x xs]; [discriminate|]. injection H as <- <-.
+    destruct (rd_many_sound (i_tag it) (i_kind it) Ht _ bs (x :: xs) r Hok Hs Em1) as (u & b & -> & Hw & Hb & Hl).
+    exists u, b. cbn [mult_ok List.length Nat.leb]. repeat split; assumption.
 Qed.
 
-Lemma rd_items_sound items : (forall it, In it items -> tag_ok (i_tag it) = true) ->
-  forall bs fields rest, bytes_ok bs = true -> zlen bs < TWO31 ->
-  rd_items rdf items bs = Some (fields, rest) ->
-  exists used body, bs = used ++ rest /\ List.length items = List.length fields /\
-     forallb (fun p => forallb (wff (i_kind (fst p))) (snd p)) (combine items fields) = true /\
-     opt_concat (map (enc_field wrf) (combine items fields)) = Some body /\ zlen body <= 2 * zlen used.
+Lemma rd_items_sound items : (forall it, In it items -> item_ok E it = true) ->
+  forall pre bs fields rest, bytes_ok bs = true -> zlen bs < TWO31 ->
+  rd_items rdf pre items bs = Some (fields, rest) ->
+  exists used body, bs = used ++ rest /\ wf_items wff pre items fields = true /\
+     wr_items wrf pre items fields = Some body /\ zlen body <= 2 * zlen used.
 Proof.
-  induction items as [|it items IH]; intros Htags bs fields rest Hok Hs H.
+  induction items as [|it items IH]; intros Hok pre bs fields rest Hbs Hs H.
   - cbn in H. injection H as <- <-. exists [], []. cbn. repeat split; try reflexivity; try (unfold zlen; cbn; lia).
   - cbn [rd_items] in H.
-    destruct (rd_field (rdf (i_tag it) (i_kind it)) it bs) as [[f r]|] eqn:E1; [|discriminate].
-    destruct (rd_items rdf items r) as [[fs r']|] eqn:E2; [|discriminate]. injection H as <- <-.
-    destruct (rd_field_sound it bs f r (Htags it (or_introl eq_refl)) Hok Hs E1) as (u1 & b1 & -> & Hw1 & Hb1 & Hl1).
-    apply bytes_ok_app in Hok as [_ Hokr]. rewrite zlen_app in Hs. pose proof (zlen_nonneg u1).
-    destruct (IH (fun it' Hin => Htags it' (or_intror Hin)) r fs r' Hokr ltac:(lia) E2)
-      as (u2 & b2 & -> & Hlen & Hw2 & Hb2 & Hl2).
-    exists (u1 ++ u2), (b1 ++ b2). rewrite <- app_assoc. split; [reflexivity|].
-    split; [cbn; lia|]. split; [cbn [combine forallb fst snd]; rewrite Hw1, Hw2; reflexivity|].
-    split; [cbn [combine map opt_concat]; rewrite Hb1, Hb2; reflexivity|]. rewrite !zlen_app. lia.
+    assert (Hok' : forall it', In it' items -> item_ok E it' = true) by (intros; apply Hok; right; assumption).
+    destruct (resolve1 pre it) as [it'| |] eqn:Er; [| |discriminate].
+    + destruct (rd_field (rdf (i_tag it') (i_kind it')) it' bs) as [[f r]|] eqn:E1; [|discriminate].
+      destruct (rd_items rdf (pre ++ [f]) items r) as [[fs r']|] eqn:E2; [|discriminate]. injection H as <- <-.
+      destruct (resolve1_ok E pre it it' (Hok it (or_introl eq_refl)) Er) as [Htag _].
+      destruct (rd_field_sound it' bs f r Htag Hbs Hs E1) as (u1 & b1 & -> & Hw1 & Hb1 & Hl1).
+      apply bytes_ok_app in Hbs as [_ Hokr]. rewrite zlen_app in Hs. pose proof (zlen_nonneg u1).
+      destruct (IH Hok' (pre ++ [f]) r fs r' Hokr ltac:(lia) E2) as (u2 & b2 & -> & Hw2 & Hb2 & Hl2).
+      exists (u1 ++ u2), (b1 ++ b2). rewrite <- app_assoc. split; [reflexivity|].
+      cbn [wf_items wr_items]. rewrite Er, Hw1, Hw2, Hb1, Hb2. repeat split; try reflexivity.
+      rewrite !zlen_app. lia.
+    + destruct (rd_items rdf (pre ++ [[]]) items bs) as [[fs r']|] eqn:E2; [|discriminate]. injection H as <- <-.
+      destruct (IH Hok' (pre ++ [[]]) bs fs r' Hbs Hs E2) as (u2 & b2 & -> & Hw2 & Hb2 & Hl2).
+      exists u2, b2. cbn [wf_items wr_items]. rewrite Er. repeat split; assumption.
 Qed.
 End Items.
 
 Theorem rd_sound : In v VERSIONS -> forall fuel, SoundAt (rd E v fuel) (wr E v fuel) (wfv E v fuel).
 Proof.
   intros Hv. induction fuel as [|f IH]; intros tag k bs x rest Ht Hok Hs H; [discriminate|].
-  cbn [rd] in H. cbn [wr wfv].
+  cbn [rd] in H.
   destruct k as [t|e|c].
   - destruct (ptype_eqb t PEnum) eqn:Ene; [discriminate|].
     destruct (dec_prim (fun _ => false) t tag bs) as [[p r]|] eqn:Ed; [|discriminate]. injection H as <- <-. cbn [wr wfv].
@@ -492,34 +547,28 @@ Proof.
     split.
     + destruct p; try reflexivity. cbn [wf_prim] in Hwf. apply andb_prop in Hwf as [Hb _]. exact Hb.
     + replace (ptype_eqb (ptype_of p) (ptype_of p)) with true by (symmetry; apply ptype_eqb_eq; reflexivity).
-      cbn [andb negb]. split; [exact Henc|lia].
+      rewrite Ene. cbn [andb negb]. split; [exact Henc|lia].
   - destruct (dec_prim (enum_mem E e) PEnum tag bs) as [[p r]|] eqn:Ed; [|discriminate]. injection H as <- <-. cbn [wr wfv].
     destruct (dec_sound (enum_mem E e) PEnum tag bs p r Ht Hok Hs Ed) as (used & bs' & -> & Hu & Henc & Hl & Hwf & Hty).
     exists used, bs'. split; [reflexivity|]. split; [exact Hu|].
     destruct p; try discriminate. cbn [wf_prim] in Hwf. apply andb_prop in Hwf as [_ Hm].
     split; [exact Hm|]. split; [exact Henc|lia].
   - destruct (find_cls E c) as [k|] eqn:Ec; [|discriminate].
-    pose proof (cls_ok_of E HE c k Ec) as Hk.
-    assert (Hrw : c_rd k = c_wr k).
-    { unfold cls_ok in Hk. apply andb_prop in Hk as [Hk _]. apply andb_prop in Hk as [Hk _].
-      apply items_eqb_eq. exact Hk. }
+    destruct (cls_facts c k Hv Ec) as (Hrw & _ & Hio).
     destruct (dec_hdr tag STRUCT_CODE bs) as [[len r]|] eqn:Eh; [|discriminate].
     destruct (dec_hdr_spec _ _ _ _ _ Eh Hok) as (h & -> & Lh & Hlen & Hr).
     set (n := Z.to_nat (Z.min len (zlen r))) in *.
-    destruct (rd_items (rd E v f) (filter (active v) (c_rd k)) (firstn n r)) as [[fields leftover]|] eqn:Ei; [|discriminate].
-    destruct (c_oversize_check k && negb (Nat.eqb (List.length leftover) 0)); [discriminate|]. injection H as <- <-. cbn [wr wfv].
+    destruct (rd_items (rd E v f) [] (filter (active v) (c_rd k)) (firstn n r)) as [[fields leftover]|] eqn:Ei; [|discriminate].
+    destruct (c_oversize_check k && negb (Nat.eqb (List.length leftover) 0)); [discriminate|]. injection H as <- <-.
+    cbn [wr wfv]. rewrite Ec.
     assert (Hsplit : r = firstn n r ++ skipn n r) by (symmetry; apply firstn_skipn).
     assert (Hoksub : bytes_ok (firstn n r) = true) by (rewrite Hsplit in Hr; apply bytes_ok_app in Hr; tauto).
     rewrite zlen_app in Hs.
     assert (Hsub_le : zlen (firstn n r) <= zlen r).
     { rewrite Hsplit at 2. rewrite zlen_app. pose proof (zlen_nonneg (skipn n r)). lia. }
     pose proof (zlen_nonneg r).
-    destruct (rd_items_sound (rd E v f) (wr E v f) (wfv E v f) IH (filter (active v) (c_rd k))) with
-        (bs := firstn n r) (fields := fields) (rest := leftover)
-      as (usedsub & body & Hsubeq & Hlenf & Hwff & Hbody & Hlb); try assumption; [| lia |].
-    { intros it Hin. apply filter_In in Hin as [Hin _].
-      unfold cls_ok in Hk. apply andb_prop in Hk as [Hk _]. apply andb_prop in Hk as [_ Hk].
-      rewrite forallb_forall in Hk. specialize (Hk it Hin). apply andb_prop in Hk as [Hk _]. exact Hk. }
+    destruct (rd_items_sound (rd E v f) (wr E v f) (wfv E v f) IH (filter (active v) (c_rd k)) Hio [] (firstn n r) fields leftover
+                Hoksub ltac:(lia) Ei) as (usedsub & body & Hsubeq & Hwff & Hbody & Hlb).
     assert (Hus : zlen usedsub <= zlen (firstn n r)).
     { rewrite Hsubeq, zlen_app. pose proof (zlen_nonneg leftover). lia. }
     rewrite Hrw in *.
@@ -530,7 +579,7 @@ Proof.
     exists (hb ++ body). split; [rewrite <- app_assoc; f_equal; exact Hsplit|].
     split; [rewrite zlen_app; pose proof (zlen_nonneg (firstn n r)); lia|].
     split; [exact Hwff|].
-    rewrite <- Hlenf, Nat.eqb_refl. cbn [negb]. rewrite Hbody. unfold with_hdr. rewrite Hhb.
+    rewrite Hbody. unfold with_hdr. rewrite Hhb.
     split; [reflexivity|].
     assert (zlen hb = 8).
     { unfold hdr in Hhb. destruct ((0 <=? zlen body) && (zlen body <? TWO32)); [|discriminate].
@@ -549,6 +598,7 @@ Theorem dec_enc_dec_struct : In v VERSIONS ->
 Proof.
   intros Hv fuel tag k bs x rest Ht Hok Hs H.
   destruct (rd_sound Hv fuel tag k bs x rest Ht Hok Hs H) as (used & bs' & _ & _ & Hwf & Hw & _).
-  exists bs'. split; [exact Hw|]. intros rest'. exact (roundtrip E v HE Hv fuel tag k x bs' Ht Hwf Hw rest').
+  exists bs'. split; [exact Hw|]. intros rest'. exact (roundtrip Hv fuel tag k x bs' Ht Hwf Hw rest').
 Qed.
-End Sound.
+
+End Generic.
